@@ -4222,7 +4222,8 @@ func (r *RoutingPolicy) inUse(d DefinedSet) bool {
 	for _, p := range r.policyMap {
 		for _, s := range p.Statements {
 			for _, c := range s.Conditions {
-				if c.Set() != nil && c.Set().Name() == name {
+				// (sets of different types may share a name)
+				if c.Set() != nil && c.Set().Name() == name && c.Set().Type() == d.Type() {
 					return true
 				}
 			}
